@@ -1,2 +1,930 @@
-// Package c12 binds the TLA+ specification of property C12 to the Go code.
+// Package c12 binds spec/addrconv (AddrConv.tla, PreferSort.tla) to
+// netutil.IPToAddr, IPToAddrNoMapped, IPNetToPrefix, IPNetToPrefixNoMapped,
+// NetAddrToAddrPort, PreferIPv4 and PreferIPv6.
+//
+// Sub-commands:
+//
+//	replay-conv <vectors> <result>                 G: TLC-enumerated net.IP / IPNet / net.Addr shapes
+//	replay-sort <universe.json> <vectors> <result> G: every short sequence with the order TLC expects
+//	record <trace> <result> <n>                    T: seeded random values and observed results for TLC
 package c12
+
+import (
+	"encoding/json"
+	"fmt"
+	"net"
+	"net/netip"
+	"os"
+	"slices"
+	"strconv"
+	"strings"
+
+	"github.com/AdguardTeam/golibs/netutil"
+
+	"verifharness/internal/vh"
+)
+
+func init() {
+	vh.Register("c12", "replay-conv", replayConv)
+	vh.Register("c12", "replay-sort", replaySort)
+	vh.Register("c12", "record", record)
+}
+
+// ------------------------------------------------------------ JSON shapes
+
+// seq is a net.IP or net.IPMask of the specification: nil, or bytes.
+type seq struct {
+	Nil bool  `json:"nil"`
+	B   []int `json:"b"`
+}
+
+func (s seq) bytes() []byte {
+	if s.Nil {
+		return nil
+	}
+	out := make([]byte, len(s.B))
+	for i, c := range s.B {
+		out[i] = byte(c)
+	}
+	return out
+}
+
+func mkSeq(b []byte) seq {
+	if b == nil {
+		return seq{Nil: true, B: []int{}}
+	}
+	return seq{B: ints(b)}
+}
+
+func ints(b []byte) []int {
+	out := make([]int, len(b))
+	for i, c := range b {
+		out[i] = int(c)
+	}
+	return out
+}
+
+func goBytes(name string, b []byte) string {
+	if b == nil {
+		return name + "(nil)"
+	}
+	parts := make([]string, len(b))
+	for i, c := range b {
+		parts[i] = strconv.Itoa(int(c))
+	}
+	return name + "{" + strings.Join(parts, ",") + "}"
+}
+
+// addrRes is an IPToAddr* result.
+type addrRes struct {
+	OK   bool   `json:"ok"`
+	Fam  string `json:"fam"`
+	B    []int  `json:"b"`
+	Zone string `json:"zone"`
+}
+
+// prefixRes is an IPNetToPrefix* result.
+type prefixRes struct {
+	OK   bool   `json:"ok"`
+	Fam  string `json:"fam"`
+	B    []int  `json:"b"`
+	Bits int    `json:"bits"`
+}
+
+// apRes is a NetAddrToAddrPort result.
+type apRes struct {
+	OK   bool   `json:"ok"`
+	Fam  string `json:"fam"`
+	B    []int  `json:"b"`
+	Zone string `json:"zone"`
+	Port int    `json:"port"`
+}
+
+type cmpFlags struct {
+	// Must is "accept", "reject" or "free" (the property makes no claim).
+	Must     string `json:"must"`
+	Cmp      bool   `json:"cmp"`
+	Skip4in6 bool   `json:"skip4in6"`
+}
+
+func famOf(a netip.Addr) string {
+	switch {
+	case !a.IsValid():
+		return "none"
+	case a.Is4():
+		return "v4"
+	default:
+		return "v6"
+	}
+}
+
+func obsAddr(a netip.Addr, err error) addrRes {
+	if err != nil {
+		return addrRes{Fam: "none", B: []int{}}
+	}
+	return addrRes{OK: true, Fam: famOf(a), B: ints(a.AsSlice()), Zone: a.Zone()}
+}
+
+func obsPrefix(p netip.Prefix, err error) prefixRes {
+	if err != nil {
+		return prefixRes{Fam: "none", B: []int{}}
+	}
+	// Bits() is -1 for an invalid prefix returned without an error.
+	return prefixRes{OK: true, Fam: famOf(p.Addr()), B: ints(p.Addr().AsSlice()), Bits: p.Bits()}
+}
+
+func obsAddrPort(ap netip.AddrPort) apRes {
+	if !ap.IsValid() {
+		return apRes{Fam: "none", B: []int{}}
+	}
+	a := ap.Addr()
+	return apRes{OK: true, Fam: famOf(a), B: ints(a.AsSlice()), Zone: a.Zone(), Port: int(ap.Port())}
+}
+
+func sameAddrRes(a, b addrRes) bool {
+	if a.OK != b.OK {
+		return false
+	}
+	return !a.OK || (a.Fam == b.Fam && slices.Equal(a.B, b.B) && a.Zone == b.Zone)
+}
+
+func samePrefixRes(a, b prefixRes) bool {
+	if a.OK != b.OK {
+		return false
+	}
+	return !a.OK || (a.Fam == b.Fam && slices.Equal(a.B, b.B) && a.Bits == b.Bits)
+}
+
+func sameAPRes(a, b apRes) bool {
+	if a.OK != b.OK {
+		return false
+	}
+	return !a.OK || (a.Fam == b.Fam && slices.Equal(a.B, b.B) && a.Zone == b.Zone && a.Port == b.Port)
+}
+
+// ------------------------------------------------------- calling the code
+
+var fams = map[string]netutil.AddrFamily{"v4": netutil.AddrFamilyIPv4, "v6": netutil.AddrFamilyIPv6}
+
+// callIPToAddr calls IPToAddr (fam "v4"/"v6") or IPToAddrNoMapped (fam "n")
+// on a private copy of ip.
+func callIPToAddr(ip []byte, fam string) (r addrRes, panicked any) {
+	arg := net.IP(slices.Clone(ip))
+	pv, p := vh.Try(func() {
+		if fam == "n" {
+			r = obsAddr(netutil.IPToAddrNoMapped(arg))
+		} else {
+			r = obsAddr(netutil.IPToAddr(arg, fams[fam]))
+		}
+	})
+	if p {
+		return r, pv
+	}
+	return r, nil
+}
+
+// callIPNetToPrefix calls IPNetToPrefix / IPNetToPrefixNoMapped on a private
+// subnet value (the NoMapped variant may rewrite subnet.IP) and returns the
+// prefix and a pristine copy of the subnet for membership probing.
+func callIPNetToPrefix(ip, mask []byte, fam string) (r prefixRes, p netip.Prefix, ref *net.IPNet, panicked any) {
+	arg := &net.IPNet{IP: slices.Clone(ip), Mask: slices.Clone(mask)}
+	ref = &net.IPNet{IP: slices.Clone(ip), Mask: slices.Clone(mask)}
+	pv, pn := vh.Try(func() {
+		var err error
+		if fam == "n" {
+			p, err = netutil.IPNetToPrefixNoMapped(arg)
+		} else {
+			p, err = netutil.IPNetToPrefix(arg, fams[fam])
+		}
+		r = obsPrefix(p, err)
+	})
+	if pn {
+		return r, p, ref, pv
+	}
+	return r, p, ref, nil
+}
+
+// customAddr is a net.Addr without an AddrPort method.
+type customAddr struct{ s string }
+
+func (c customAddr) Network() string { return "custom" }
+func (c customAddr) String() string  { return c.s }
+
+// apAddr is a custom net.Addr with an AddrPort method built like the
+// standard library's.
+type apAddr struct {
+	ip   net.IP
+	zone string
+	port int
+}
+
+func (c apAddr) Network() string { return "custom" }
+func (c apAddr) String() string  { return c.ip.String() }
+func (c apAddr) AddrPort() netip.AddrPort {
+	na, _ := netip.AddrFromSlice(c.ip)
+	return netip.AddrPortFrom(na.WithZone(c.zone), uint16(c.port))
+}
+
+func mkNetAddr(kind string, ip []byte, zone string, port int) (net.Addr, error) {
+	ipc := net.IP(slices.Clone(ip))
+	switch kind {
+	case "tcp":
+		return &net.TCPAddr{IP: ipc, Port: port, Zone: zone}, nil
+	case "udp":
+		return &net.UDPAddr{IP: ipc, Port: port, Zone: zone}, nil
+	case "apcustom":
+		return apAddr{ip: ipc, zone: zone, port: port}, nil
+	case "ip":
+		return &net.IPAddr{IP: ipc, Zone: zone}, nil
+	case "custom":
+		return customAddr{s: ipc.String()}, nil
+	case "niltcp":
+		return (*net.TCPAddr)(nil), nil
+	case "niludp":
+		return (*net.UDPAddr)(nil), nil
+	}
+	return nil, fmt.Errorf("unknown net.Addr kind %q", kind)
+}
+
+func callNetAddr(kind string, ip []byte, zone string, port int) (r apRes, panicked any, err error) {
+	a, err := mkNetAddr(kind, ip, zone, port)
+	if err != nil {
+		return r, nil, err
+	}
+	pv, p := vh.Try(func() { r = obsAddrPort(netutil.NetAddrToAddrPort(a)) })
+	if p {
+		return r, pv, nil
+	}
+	return r, nil, nil
+}
+
+func famName(f string) string {
+	switch f {
+	case "v4":
+		return "AddrFamilyIPv4"
+	case "v6":
+		return "AddrFamilyIPv6"
+	}
+	return ""
+}
+
+func keyIP(ip []byte, fam string) string {
+	if fam == "n" {
+		return "IPToAddrNoMapped(" + goBytes("net.IP", ip) + ")"
+	}
+	return "IPToAddr(" + goBytes("net.IP", ip) + ", " + famName(fam) + ")"
+}
+
+func keyNet(ip, mask []byte, fam string) string {
+	sub := "&net.IPNet{IP:" + goBytes("net.IP", ip) + ", Mask:" + goBytes("net.IPMask", mask) + "}"
+	if fam == "n" {
+		return "IPNetToPrefixNoMapped(" + sub + ")"
+	}
+	return "IPNetToPrefix(" + sub + ", " + famName(fam) + ")"
+}
+
+// ------------------------------------------------------------ membership
+
+// probe is one membership observation: the probe address and what the two
+// real Contains methods say.
+type probe struct {
+	X  []int `json:"x"`
+	PC bool  `json:"pc"`
+	NC bool  `json:"nc"`
+}
+
+func flipBit(b []byte, i int) []byte {
+	out := slices.Clone(b)
+	out[i/8] ^= 0x80 >> (i % 8)
+	return out
+}
+
+func addOne(b []byte, d int) []byte {
+	out := slices.Clone(b)
+	for i := len(out) - 1; i >= 0; i-- {
+		v := int(out[i]) + d
+		out[i] = byte(v)
+		if v >= 0 && v <= 255 {
+			break
+		}
+	}
+	return out
+}
+
+// boundaryProbes returns network address, broadcast address, their
+// neighbours and every single-bit flip of the network address for the
+// prefix (bits within range).
+func boundaryProbes(addr []byte, bits int) [][]byte {
+	network, bcast := slices.Clone(addr), slices.Clone(addr)
+	for i := bits; i < 8*len(addr); i++ {
+		network[i/8] &^= 0x80 >> (i % 8)
+		bcast[i/8] |= 0x80 >> (i % 8)
+	}
+	out := [][]byte{slices.Clone(addr), network, bcast, addOne(network, -1), addOne(network, 1), addOne(bcast, -1), addOne(bcast, 1)}
+	for i := 0; i < 8*len(addr); i++ {
+		out = append(out, flipBit(network, i))
+	}
+	return out
+}
+
+// observeProbe asks both real Contains methods about x (as netip.Addr and as
+// the net.IP with the same bytes).
+func observeProbe(p netip.Prefix, ref *net.IPNet, x []byte) probe {
+	a, _ := netip.AddrFromSlice(x)
+	return probe{X: ints(x), PC: p.Contains(a), NC: ref.Contains(net.IP(slices.Clone(x)))}
+}
+
+// ------------------------------------------------------------------- G
+
+type convVec struct {
+	T    string `json:"t"`
+	IP   seq    `json:"ip"`
+	Mask seq    `json:"mask"`
+	Kind string `json:"kind"`
+	Zone string `json:"zone"`
+	Port int    `json:"port"`
+
+	R4 addrRes `json:"r4"`
+	R6 addrRes `json:"r6"`
+	RN addrRes `json:"rn"`
+
+	P4 prefixRes `json:"p4"`
+	P6 prefixRes `json:"p6"`
+	PN prefixRes `json:"pn"`
+	C4 cmpFlags  `json:"c4"`
+	C6 cmpFlags  `json:"c6"`
+	CN cmpFlags  `json:"cn"`
+
+	AP   apRes  `json:"ap"`
+	Must string `json:"must"`
+}
+
+func replayConv(args []string) error {
+	if len(args) != 2 {
+		return fmt.Errorf("usage: replay-conv <vectors> <result>")
+	}
+	res, err := vh.NewResult(args[1])
+	if err != nil {
+		return err
+	}
+	n, calls, probes, compared := 0, 0, 0, 0
+	dd := vh.NewDedup()
+	err = vh.ForEachVector(args[0], func(_ int, raw []byte) error {
+		var v convVec
+		if err := json.Unmarshal(raw, &v); err != nil {
+			return err
+		}
+		n++
+		dd.Add(raw)
+		if n%1499 == 1 {
+			var s any
+			json.Unmarshal(raw, &s)
+			res.Sample(s)
+		}
+		ip := v.IP.bytes()
+		switch v.T {
+		case "ip":
+			for _, c := range []struct {
+				fam  string
+				want addrRes
+			}{{"v4", v.R4}, {"v6", v.R6}, {"n", v.RN}} {
+				calls++
+				got, pv := callIPToAddr(ip, c.fam)
+				switch {
+				case pv != nil:
+					res.Mismatch(keyIP(ip, c.fam), fmt.Sprintf("panic: %v", pv), v)
+				case !sameAddrRes(got, c.want):
+					res.Mismatch(keyIP(ip, c.fam), fmt.Sprintf("returned %+v, the specification requires %+v", got, c.want), v)
+				}
+			}
+		case "net":
+			mask := v.Mask.bytes()
+			for _, c := range []struct {
+				fam  string
+				want prefixRes
+				cmp  cmpFlags
+			}{{"v4", v.P4, v.C4}, {"v6", v.P6, v.C6}, {"n", v.PN, v.CN}} {
+				calls++
+				got, p, ref, pv := callIPNetToPrefix(ip, mask, c.fam)
+				key := keyNet(ip, mask, c.fam)
+				switch {
+				case pv != nil:
+					res.Mismatch(key, fmt.Sprintf("panic: %v", pv), v)
+					continue
+				case c.cmp.Must == "reject" && got.OK:
+					res.Mismatch(key, fmt.Sprintf("returned %v without an error; the subnet must be rejected "+
+						"(mask nil, empty or not a contiguous run of ones, or IP not an address of the family)", p), v)
+					continue
+				case c.cmp.Must == "accept" && !meetsPrefix(got, c.want):
+					res.Mismatch(key, fmt.Sprintf("returned %+v, the specification requires %+v (host bits free)", got, c.want), v)
+					continue
+				case c.cmp.Must != "accept" && c.cmp.Must != "reject" && c.cmp.Must != "free":
+					return fmt.Errorf("bad demand %q", c.cmp.Must)
+				}
+				if c.cmp.Must != "accept" || !c.cmp.Cmp {
+					continue
+				}
+				compared++
+				for _, x := range boundaryProbes(p.Addr().AsSlice(), p.Bits()) {
+					if c.cmp.Skip4in6 && len(x) == 16 && netip.AddrFrom16([16]byte(x)).Is4In6() {
+						continue
+					}
+					probes++
+					o := observeProbe(p, ref, x)
+					if o.PC != o.NC {
+						a, _ := netip.AddrFromSlice(x)
+						res.Mismatch(key, fmt.Sprintf("the prefix %v and the *net.IPNet disagree about %v: Prefix.Contains=%v IPNet.Contains=%v",
+							p, a, o.PC, o.NC), map[string]any{"vector": v, "probe": o})
+						break
+					}
+				}
+			}
+		case "na":
+			calls++
+			got, pv, err := callNetAddr(v.Kind, ip, v.Zone, v.Port)
+			if err != nil {
+				return err
+			}
+			key := fmt.Sprintf("NetAddrToAddrPort(%s{IP:%s, Zone:%q, Port:%d})", v.Kind, goBytes("net.IP", ip), v.Zone, v.Port)
+			switch {
+			case pv != nil:
+				res.Mismatch(key, fmt.Sprintf("panic: %v", pv), v)
+			case v.Must == "accept" && !sameAPRes(got, v.AP):
+				res.Mismatch(key, fmt.Sprintf("returned %+v, the specification requires %+v", got, v.AP), v)
+			case v.Must == "reject" && got.OK:
+				res.Mismatch(key, fmt.Sprintf("returned the valid %+v for something that is not an address", got), v)
+			case v.Must == "free" && got.OK && v.Kind == "ip":
+				if a, ok := netip.AddrFromSlice(ip); !ok || !slices.Equal(got.B, ints(a.Unmap().AsSlice())) {
+					res.Mismatch(key, fmt.Sprintf("returned %+v: the address was changed", got), v)
+				}
+			case v.Must != "accept" && v.Must != "reject" && v.Must != "free":
+				return fmt.Errorf("bad demand %q", v.Must)
+			}
+		default:
+			return fmt.Errorf("unknown vector type %q", v.T)
+		}
+		return nil
+	})
+	if err != nil {
+		return err
+	}
+	return res.Close(map[string]any{"replayed": n, "calls": calls, "membership_probes": probes,
+		"subnets_compared": compared, "distinct_nontrivial": dd.N()})
+}
+
+// meetsPrefix: got is an accepted prefix with want's family, length and
+// network bits (host bits of the address are not constrained).
+func meetsPrefix(got, want prefixRes) bool {
+	if !got.OK || !want.OK || got.Fam != want.Fam || got.Bits != want.Bits || len(got.B) != len(want.B) {
+		return false
+	}
+	for i := 0; i < want.Bits; i++ {
+		m := 0x80 >> (i % 8)
+		if got.B[i/8]&m != want.B[i/8]&m {
+			return false
+		}
+	}
+	return true
+}
+
+// ----------------------------------------------------------------- sort
+
+type specAddr struct {
+	Fam  string `json:"fam"`
+	B    []int  `json:"b"`
+	Zone int    `json:"zone"`
+}
+
+// zoneNames are ordered like their indices (index 0 = no zone).
+var zoneNames = []string{"", "a", "b", "eth0", "eth1", "lo"}
+
+func (s specAddr) addr() (netip.Addr, error) {
+	switch s.Fam {
+	case "none":
+		return netip.Addr{}, nil
+	case "v4":
+		if len(s.B) != 4 {
+			return netip.Addr{}, fmt.Errorf("bad v4 %v", s.B)
+		}
+		return netip.AddrFrom4([4]byte(seq{B: s.B}.bytes())), nil
+	case "v6":
+		if len(s.B) != 16 || s.Zone < 0 || s.Zone >= len(zoneNames) {
+			return netip.Addr{}, fmt.Errorf("bad v6 %v zone %d", s.B, s.Zone)
+		}
+		a := netip.AddrFrom16([16]byte(seq{B: s.B}.bytes()))
+		if s.Zone > 0 {
+			a = a.WithZone(zoneNames[s.Zone])
+		}
+		return a, nil
+	}
+	return netip.Addr{}, fmt.Errorf("bad family %q", s.Fam)
+}
+
+func toSpecAddr(a netip.Addr) specAddr {
+	if !a.IsValid() {
+		return specAddr{Fam: "none", B: []int{}}
+	}
+	return specAddr{Fam: famOf(a), B: ints(a.AsSlice()), Zone: slices.Index(zoneNames, a.Zone())}
+}
+
+func fmtAddrs(as []netip.Addr) string {
+	parts := make([]string, len(as))
+	for i, a := range as {
+		if a.IsValid() {
+			parts[i] = a.String()
+		} else {
+			parts[i] = "{}"
+		}
+	}
+	return "[" + strings.Join(parts, " ") + "]"
+}
+
+func replaySort(args []string) error {
+	if len(args) != 3 {
+		return fmt.Errorf("usage: replay-sort <universe.json> <vectors> <result>")
+	}
+	data, err := os.ReadFile(args[0])
+	if err != nil {
+		return err
+	}
+	var u struct {
+		Univ  []specAddr `json:"univ"`
+		Less4 [][]bool   `json:"less4"`
+		Less6 [][]bool   `json:"less6"`
+	}
+	if err := json.Unmarshal(data, &u); err != nil {
+		return err
+	}
+	univ := make([]netip.Addr, len(u.Univ))
+	for i, s := range u.Univ {
+		if univ[i], err = s.addr(); err != nil {
+			return err
+		}
+	}
+	res, err := vh.NewResult(args[2])
+	if err != nil {
+		return err
+	}
+	// The comparators themselves: negative exactly where the order says "less".
+	pairs := 0
+	for i, a := range univ {
+		for j, b := range univ {
+			for _, c := range []struct {
+				name string
+				f    func(a, b netip.Addr) int
+				less [][]bool
+			}{{"PreferIPv4", netutil.PreferIPv4, u.Less4}, {"PreferIPv6", netutil.PreferIPv6, u.Less6}} {
+				pairs++
+				got := c.f(a, b)
+				if (got < 0) != c.less[i][j] {
+					res.Mismatch(fmt.Sprintf("%s(%s, %s)", c.name, fmtAddrs([]netip.Addr{a}), fmtAddrs([]netip.Addr{b})),
+						fmt.Sprintf("returned %d, the specified order says less=%v", got, c.less[i][j]), nil)
+				}
+			}
+		}
+	}
+	n := 0
+	dd := vh.NewDedup()
+	err = vh.ForEachVector(args[1], func(_ int, raw []byte) error {
+		var v struct {
+			In []int `json:"in"`
+			V4 []int `json:"v4"`
+			V6 []int `json:"v6"`
+		}
+		if err := json.Unmarshal(raw, &v); err != nil {
+			return err
+		}
+		n++
+		if len(v.In) > 1 {
+			dd.Add(raw)
+		}
+		pick := func(idx []int) ([]netip.Addr, error) {
+			out := make([]netip.Addr, len(idx))
+			for i, k := range idx {
+				if k < 1 || k > len(univ) {
+					return nil, fmt.Errorf("index %d outside the universe", k)
+				}
+				out[i] = univ[k-1]
+			}
+			return out, nil
+		}
+		in, err := pick(v.In)
+		if err != nil {
+			return err
+		}
+		for _, c := range []struct {
+			name string
+			f    func(a, b netip.Addr) int
+			want []int
+		}{{"PreferIPv4", netutil.PreferIPv4, v.V4}, {"PreferIPv6", netutil.PreferIPv6, v.V6}} {
+			want, err := pick(c.want)
+			if err != nil {
+				return err
+			}
+			got := slices.Clone(in)
+			key := fmt.Sprintf("slices.SortFunc(%s, %s)", fmtAddrs(in), c.name)
+			if pv, p := vh.Try(func() { slices.SortFunc(got, c.f) }); p {
+				res.Mismatch(key, fmt.Sprintf("panic: %v", pv), v)
+				continue
+			}
+			if !slices.Equal(got, want) {
+				res.Mismatch(key, fmt.Sprintf("sorted to %s, the specified order is %s", fmtAddrs(got), fmtAddrs(want)), v)
+			}
+		}
+		if n%4999 == 1 {
+			res.Sample(map[string]any{"in": fmtAddrs(in), "v4_first": v.V4, "v6_first": v.V6})
+		}
+		return nil
+	})
+	if err != nil {
+		return err
+	}
+	return res.Close(map[string]any{"replayed": 2 * n, "comparator_pairs": pairs, "distinct_nontrivial": 2 * dd.N()})
+}
+
+// --------------------------------------------------------------------- T
+
+type rgen struct {
+	intn func(int) int
+	u64  func() uint64
+}
+
+func (g *rgen) fill(b []byte) {
+	for i := range b {
+		if i%8 == 0 {
+			x := g.u64()
+			for k := 0; k < 8 && i+k < len(b); k++ {
+				b[i+k] = byte(x >> (8 * k))
+			}
+		}
+	}
+}
+
+// ip draws a net.IP: nil, empty, 4, 16 (plain, mapped, almost mapped), or a
+// wrong length.
+func (g *rgen) ip() []byte {
+	switch r := g.intn(20); {
+	case r == 0:
+		return nil
+	case r == 1:
+		return []byte{}
+	case r < 7:
+		b := make([]byte, 4)
+		g.fill(b)
+		return b
+	case r < 11: // mapped
+		b := make([]byte, 16)
+		g.fill(b[12:])
+		b[10], b[11] = 0xFF, 0xFF
+		return b
+	case r < 13: // almost mapped: one bit of the 96-bit prefix is wrong
+		b := make([]byte, 16)
+		g.fill(b[12:])
+		b[10], b[11] = 0xFF, 0xFF
+		i := g.intn(96)
+		b[i/8] ^= 0x80 >> (i % 8)
+		return b
+	case r < 18:
+		b := make([]byte, 16)
+		g.fill(b)
+		if g.intn(3) == 0 { // sparse
+			for i := range b {
+				if g.intn(4) != 0 {
+					b[i] = 0
+				}
+			}
+		}
+		return b
+	default:
+		n := []int{1, 2, 3, 5, 8, 12, 15, 17, 18, 20, 32}[g.intn(11)]
+		b := make([]byte, n)
+		g.fill(b)
+		if n >= 12 && g.intn(2) == 0 {
+			copy(b, []byte{0, 0, 0, 0, 0, 0, 0, 0, 0, 0, 0xFF, 0xFF})
+		}
+		return b
+	}
+}
+
+// cidrMask is the n-byte mask with k leading ones (net.CIDRMask only knows 4
+// and 16 bytes).
+func cidrMask(k, n int) []byte {
+	m := make([]byte, n)
+	for i := 0; i < k; i++ {
+		m[i/8] |= 0x80 >> (i % 8)
+	}
+	return m
+}
+
+// mask draws a net.IPMask: nil, empty, contiguous of 4/16 bytes, with a hole,
+// or of a wrong length.
+func (g *rgen) mask(iplen int) []byte {
+	n := iplen
+	if n != 4 && n != 16 || g.intn(5) == 0 {
+		n = []int{4, 16, 4, 16, 1, 3, 5, 8, 12, 17, 20}[g.intn(11)]
+	}
+	switch r := g.intn(20); {
+	case r == 0:
+		return nil
+	case r == 1:
+		return []byte{}
+	case r < 14:
+		return cidrMask(g.intn(8*n+1), n)
+	default:
+		m := cidrMask(g.intn(8*n+1), n)
+		for k := 1 + g.intn(2); k > 0; k-- {
+			i := g.intn(8 * n)
+			m[i/8] ^= 0x80 >> (i % 8)
+		}
+		return m
+	}
+}
+
+type netEvent struct {
+	T    string `json:"t"`
+	IP   seq    `json:"ip"`
+	Mask seq    `json:"mask"`
+	// One entry per call: fam "v4", "v6" or "n".
+	Calls []netCall `json:"calls"`
+}
+
+type netCall struct {
+	Fam    string    `json:"fam"`
+	R      prefixRes `json:"r"`
+	Probes []probe   `json:"probes"`
+}
+
+// record drives the real functions with seeded random values well outside
+// the enumerated shapes and logs arguments and observed results for
+// AddrConvTrace.tla.
+func record(args []string) error {
+	if len(args) != 3 {
+		return fmt.Errorf("usage: record <trace> <result> <n>")
+	}
+	n, err := strconv.Atoi(args[2])
+	if err != nil || n <= 0 {
+		return fmt.Errorf("bad n")
+	}
+	tr, err := vh.NewTrace(args[0])
+	if err != nil {
+		return err
+	}
+	res, err := vh.NewResult(args[1])
+	if err != nil {
+		return err
+	}
+	rng := vh.Rand(12)
+	g := &rgen{intn: rng.IntN, u64: rng.Uint64}
+	dd := vh.NewDedup()
+	counts := map[string]int{}
+	emit := func(ev any) {
+		b, _ := json.Marshal(ev)
+		dd.Add(b)
+		tr.Emit(ev)
+	}
+	for i := 0; i < n; i++ {
+		switch r := g.intn(10); {
+		case r < 3: // IPToAddr*
+			ip := g.ip()
+			ev := map[string]any{"t": "ip", "ip": mkSeq(ip)}
+			bad := false
+			for _, fam := range []string{"v4", "v6", "n"} {
+				got, pv := callIPToAddr(ip, fam)
+				if pv != nil {
+					res.Mismatch(keyIP(ip, fam), fmt.Sprintf("panic: %v", pv), nil)
+					bad = true
+				}
+				ev["r"+fam[len(fam)-1:]] = got
+			}
+			if !bad {
+				counts["ip"]++
+				emit(ev)
+			}
+		case r < 6: // IPNetToPrefix*
+			ip := g.ip()
+			mask := g.mask(len(ip))
+			ev := netEvent{T: "net", IP: mkSeq(ip), Mask: mkSeq(mask)}
+			bad := false
+			for _, fam := range []string{"v4", "v6", "n"} {
+				got, p, ref, pv := callIPNetToPrefix(ip, mask, fam)
+				if pv != nil {
+					res.Mismatch(keyNet(ip, mask, fam), fmt.Sprintf("panic: %v", pv), nil)
+					bad = true
+					continue
+				}
+				c := netCall{Fam: fam, R: got, Probes: []probe{}}
+				if got.OK && p.IsValid() {
+					counts["net_ok"]++
+					addr := p.Addr().AsSlice()
+					cands := boundaryProbes(addr, p.Bits())
+					// A handful of boundary probes and random ones of the same length.
+					for k := 0; k < 6; k++ {
+						c.Probes = append(c.Probes, observeProbe(p, ref, cands[g.intn(len(cands))]))
+					}
+					for k := 0; k < 3; k++ {
+						x := make([]byte, len(addr))
+						g.fill(x)
+						keep := g.intn(8*len(addr) + 1)
+						for b := 0; b < keep; b++ {
+							m := byte(0x80) >> (b % 8)
+							x[b/8] = x[b/8]&^m | addr[b/8]&m
+						}
+						c.Probes = append(c.Probes, observeProbe(p, ref, x))
+					}
+				}
+				ev.Calls = append(ev.Calls, c)
+			}
+			if !bad {
+				counts["net"]++
+				emit(ev)
+			}
+		case r < 8: // NetAddrToAddrPort
+			kinds := []string{"tcp", "udp", "apcustom", "tcp", "udp", "ip", "custom", "niltcp", "niludp"}
+			kind := kinds[g.intn(len(kinds))]
+			ip := g.ip()
+			zone := ""
+			if g.intn(3) == 0 {
+				zone = zoneNames[1+g.intn(len(zoneNames)-1)]
+			}
+			port := []int{0, 1, 53, 443, 8080, 65535, g.intn(65536)}[g.intn(7)]
+			got, pv, err := callNetAddr(kind, ip, zone, port)
+			if err != nil {
+				return err
+			}
+			if pv != nil {
+				res.Mismatch(fmt.Sprintf("NetAddrToAddrPort(%s{IP:%s, Zone:%q, Port:%d})", kind, goBytes("net.IP", ip), zone, port),
+					fmt.Sprintf("panic: %v", pv), nil)
+				continue
+			}
+			counts["na"]++
+			emit(map[string]any{"t": "na", "kind": kind, "ip": mkSeq(ip), "zone": zone, "port": port, "r": got})
+		default: // sorting
+			pool := make([]netip.Addr, 2+g.intn(8))
+			for k := range pool {
+				switch q := g.intn(10); {
+				case q == 0:
+					pool[k] = netip.Addr{}
+				case q < 4:
+					var b [4]byte
+					g.fill(b[:])
+					if g.intn(2) == 0 {
+						b[0], b[1], b[2] = 10, 0, 0
+					}
+					pool[k] = netip.AddrFrom4(b)
+				case q < 6:
+					var b [16]byte
+					g.fill(b[12:])
+					b[10], b[11] = 0xFF, 0xFF
+					pool[k] = netip.AddrFrom16(b)
+				default:
+					var b [16]byte
+					g.fill(b[:])
+					if g.intn(2) == 0 {
+						copy(b[:], []byte{0xFE, 0x80, 0, 0, 0, 0, 0, 0, 0, 0, 0, 0, 0, 0, 0})
+					}
+					a := netip.AddrFrom16(b)
+					if g.intn(3) == 0 {
+						a = a.WithZone(zoneNames[1+g.intn(len(zoneNames)-1)])
+					}
+					pool[k] = a
+				}
+			}
+			in := make([]netip.Addr, g.intn(13))
+			for k := range in {
+				in[k] = pool[g.intn(len(pool))]
+			}
+			ev := map[string]any{"t": "sort"}
+			conv := func(as []netip.Addr) []specAddr {
+				out := make([]specAddr, len(as))
+				for k, a := range as {
+					out[k] = toSpecAddr(a)
+				}
+				return out
+			}
+			ev["in"] = conv(in)
+			bad := false
+			for _, c := range []struct {
+				name, field string
+				f           func(a, b netip.Addr) int
+			}{{"PreferIPv4", "o4", netutil.PreferIPv4}, {"PreferIPv6", "o6", netutil.PreferIPv6}} {
+				got := slices.Clone(in)
+				if pv, p := vh.Try(func() { slices.SortFunc(got, c.f) }); p {
+					res.Mismatch(fmt.Sprintf("slices.SortFunc(%s, %s)", fmtAddrs(in), c.name), fmt.Sprintf("panic: %v", pv), nil)
+					bad = true
+				}
+				ev[c.field] = conv(got)
+			}
+			if !bad {
+				counts["sort"]++
+				emit(ev)
+			}
+		}
+	}
+	if tr.N > 0 {
+		res.Sample(map[string]any{"recorded_events": tr.N, "by_kind": counts})
+	}
+	if err := tr.Close(); err != nil {
+		return err
+	}
+	return res.Close(map[string]any{"events": tr.N, "distinct_nontrivial": dd.N(), "counts": counts})
+}
